@@ -95,6 +95,42 @@ Proof.
   - destruct Hh as (-> & Hs). rewrite Hx. auto.
 Qed.
 
+Lemma run_records_grid_ : forall ctl stop dt T st st',
+  run c load ctl stop dt T st = Ok st' ->
+  exists t0 ts new, run_grid dt T (last_time st) = Ok (t0, ts) /\ map fst new = rev (firstn (length new) ts) /\
+    match y_hist st with
+    | [] => exists s0, y_hist st' = (new ++ [(t0, s0)])%list
+    | _ :: _ => y_hist st' = (new ++ y_hist st)%list
+    end.
+Proof.
+  intros ctl stop dt T st st' H. destruct (run_uses_run_grid ctl stop dt T st st' H) as (t0 & ts & new & Hg & [H1 _ _ _ _] & Hh).
+  exists t0, ts, new. auto.
+Qed.
+
+Lemma reachable_lengths_ : forall ops p w st t s,
+  exec c load ops (initial p w) = Ok st -> In (t, s) (y_hist st) ->
+  let n := S (length (c_elems c)) in
+  length (s_pos s) = n /\ length (s_spd s) = n /\ length (s_acc s) = n /\ length (s_dtq s) = n /\ length (s_ltq s) = n /\ length (s_tq s) = n.
+Proof.
+  intros ops p w st t s He Hin.
+  destruct (exec_inv c load _ _ _ (initial_inv c load p w) He) as (Hh & _).
+  destruct (hist_ok_in c load _ _ _ Hh Hin) as (v & ctl & J & f & locked & prov & _ & _ & Hf).
+  assert (Hr : length (ratios c) = length (c_elems c)) by (unfold ratios; apply map_length).
+  destruct (back_prop_spec _ _ _ (if_pos _ _ _ _ _ _ _ _ _ _ Hf)) as (_ & _ & Hp).
+  destruct (if_spd1 _ _ _ _ _ _ _ _ _ _ Hf) as (spd1 & spd0 & Hb & _ & _ & Hs). destruct (back_prop_spec _ _ _ Hb) as (_ & _ & Hs1).
+  destruct (if_load _ _ _ _ _ _ _ _ _ _ Hf) as (pl & sl & lt & _ & _ & _ & Hl). destruct (load_prop_spec _ _ _ Hl) as (_ & _ & Hl1).
+  destruct (if_drive _ _ _ _ _ _ _ _ _ _ Hf) as (sp & d0 & _ & _ & Hd & _). destruct (drive_prop_spec _ _ _ Hd) as (_ & _ & Hd1).
+  assert (Hsp : length (s_spd s) = S (length (c_elems c))). { rewrite Hs. destruct (s_locked s); [rewrite map_length|]; lia. }
+  assert (Hacc : length (s_acc s) = S (length (c_elems c))).
+  { generalize (if_acc _ _ _ _ _ _ _ _ _ _ Hf). destruct (s_locked s).
+    - intros (spd1' & Hb' & ->). rewrite Hb in Hb'. injection Hb' as <-. rewrite map_length. lia.
+    - intros (tl & a & _ & _ & Ha). destruct (back_prop_spec _ _ _ Ha) as (_ & _ & Hn). lia. }
+  assert (Htq : length (s_tq s) = S (length (c_elems c))).
+  { assert (Hpw := map2r_spec _ _ _ _ (if_net _ _ _ _ _ _ _ _ _ _ Hf)). clear - Hpw Hd1.
+    revert Hd1. generalize (S (length (c_elems c))). induction Hpw; intros n Hn; cbn in *; [exact Hn|]. destruct n; [discriminate|]. f_equal. apply IHHpw. lia. }
+  cbn zeta. repeat split; lia.
+Qed.
+
 (** the grid itself *)
 Lemma grid_from_length (t0v dtv : num A) u k n : length (grid_from t0v dtv u k n) = n.
 Proof. revert k. induction n; intros k; cbn; auto. Qed.
@@ -106,3 +142,5 @@ Proof.
   - rewrite IH by lia. replace (k + 1 + Z.of_nat i)%Z with (k + Z.of_nat (S i))%Z by lia. reflexivity.
 Qed.
 End Run.
+Definition run_records_grid := @run_records_grid_.
+Definition reachable_lengths := @reachable_lengths_.
